@@ -9,7 +9,7 @@ for d in seeded/*/; do
   if git -C $WT apply $(readlink -f $d/patch.diff) 2>/dev/null; then
     DSIM_REPO=$WT timeout 900 ./check $pid --tier quick --no-evidence ${SEEDED_RUNS:+--runs $SEEDED_RUNS} > /tmp/w/seeded_$id.out 2>&1; rc=$?
     n=$(grep -c "^VIOLATION" /tmp/w/seeded_$id.out)
-    if [ $rc -eq 1 ] && [ $n -gt 0 ]; then echo "$id $pid CAUGHT ($n signatures) $(grep -m1 'signature=' /tmp/w/seeded_$id.out | cut -c1-110)"; else echo "$id $pid MISSED (exit $rc)"; fi
+    if [ $rc -eq 1 ] && [ $n -gt 0 ]; then echo "$id $pid CAUGHT ($n signatures) $(grep -m1 'signature=' /tmp/w/seeded_$id.out | cut -c1-110)"; elif grep -q '"policy": "not-claimed"' $d/meta.json; then echo "$id $pid not caught, by decision (see meta.json: outside the property as stated)"; else echo "$id $pid MISSED (exit $rc)"; fi
   else echo "$id $pid PATCH-DOES-NOT-APPLY"; fi
   git -C /repo worktree remove --force $WT >/dev/null 2>&1
 done
